@@ -276,7 +276,7 @@ impl Prop for C04 {
 		]
 	}
 	fn expected_probes(&self) -> Vec<&'static str> {
-		vec!["limit_alloc_size_exceeded_by_valid_input", "limit_depth_exceeded_by_valid_input", "limit_seq_size_exceeded_by_valid_input", "nesting_stream", "reader_scratch_allocation_observed", "slice_success_zero_alloc_confirmed", "valid_input_within_limits"]
+		vec!["long_stream_of_datums", "limit_alloc_size_exceeded_by_valid_input", "limit_depth_exceeded_by_valid_input", "limit_seq_size_exceeded_by_valid_input", "nesting_stream", "reader_scratch_allocation_observed", "slice_success_zero_alloc_confirmed", "valid_input_within_limits"]
 	}
 	fn budget(&self, tier: Tier) -> (u64, u64) {
 		match tier {
